@@ -504,7 +504,7 @@ def c02_replay(ctx, rp):
 
 C15_FAMILIES = ["nest", "nest-noname", "nest-multi", "set-width", "coll-set", "attr-count", "group-count", "member-count",
                 "value-len", "name-len", "unterminated", "endcoll-flood", "member-flood", "addl-no-attr",
-                "name-invalid-utf8", "value-invalid-utf8", "member-count-desc", "member-count-shuffled", "attr-count-desc"]
+                "name-invalid-utf8", "value-invalid-utf8", "member-count-desc", "member-count-shuffled", "attr-count-desc", "wide-then-many"]
 C15_RATIO_LIMIT = 2.6
 
 
